@@ -1,8 +1,259 @@
-From Coq Require Import List ZArith Bool.
+(* C10 - Slicing policies yield the documented windows; token chunks are slice-relative.
+   Property theorems only: each is closed by [exact <lemma of Proofs*.v>] and followed by [Print Assumptions].
+   The harness re-checks this file on every run.
+
+   [v] is the model variant (Model.v header).  /repo today: k1 as coded (known finding K1), d1..d5 repaired
+   (fix: commits da2ab1a, 1646a02, 8b9cc8a, 3726416); the correspondence check establishes on every run which variant
+   the implementation follows and compares it with exactly that model. *)
+From Coq Require Import List ZArith Bool Arith Lia Sorted.
 From PV Require Import C10.Model C10.Spec C10.Proofs.
 Import ListNotations.
 Local Open Scope Z_scope.
 
-Theorem c10_stub : fst (chunk_tokens as_coded [[(8, 2, 5)]] [(2, 9)] None false false) = [[(8, 4, 7)]].
-Proof. exact relative_boundaries_refuted_stub. Qed.
-Print Assumptions c10_stub.
+(* ================================================================================================== *)
+(* the slicer returns exactly the windows the documented policy prescribes, in order, each labelled   *)
+(*  with its source element - one theorem per policy, for every window type, validity setting, lobe   *)
+(*  size >= 0, batch size and in_lens / other_lens given or omitted                                    *)
+(* ================================================================================================== *)
+Theorem c10_fixed_windows_spec : forall v N T in_lens other_lens wt vo lobe,
+  d3 v = false -> (1 <= T)%nat -> 0 <= lobe -> lens_ok N (Z.of_nat T) in_lens ->
+  exists out, slice_spect_data v T (InFixed N) in_lens other_lens wt vo lobe = Some out
+              /\ fixed_spec N (len_of (Z.of_nat T) in_lens) wt vo lobe out.
+Proof. exact sd_fixed_windows_spec. Qed.
+Print Assumptions c10_fixed_windows_spec.
+
+Theorem c10_ali_windows_spec : forall v T rows in_lens other_lens wt vo lobe,
+  d1 v = false -> d4 v = false -> (1 <= T)%nat -> 0 <= lobe ->
+  Forall (fun r => length r = T) rows -> lens_ok (length rows) (Z.of_nat T) in_lens ->
+  exists out, slice_spect_data v T (InAli rows) in_lens other_lens wt vo lobe = Some out
+              /\ ali_spec rows (len_of (Z.of_nat T) in_lens) wt vo lobe out.
+Proof. exact sd_ali_windows_spec. Qed.
+Print Assumptions c10_ali_windows_spec.
+
+Theorem c10_ref_windows_spec : forall v T rows in_lens other_lens wt vo lobe,
+  d2 v = false -> (1 <= T)%nat -> 0 <= lobe -> ref_lens_ok T rows in_lens other_lens ->
+  exists out, slice_spect_data v T (InRef rows) in_lens other_lens wt vo lobe = Some out
+              /\ ref_spec rows (ref_len T in_lens) (ref_other T rows in_lens other_lens) wt vo lobe out.
+Proof. exact sd_ref_windows_spec. Qed.
+Print Assumptions c10_ref_windows_spec.
+
+(* "exactly": each spec has one solution, so an output meets the spec iff it equals the model's *)
+Theorem c10_fixed_spec_unique : forall N len wt vo lobe o1 o2,
+  fixed_spec N len wt vo lobe o1 -> fixed_spec N len wt vo lobe o2 -> o1 = o2.
+Proof. exact fixed_spec_unique. Qed.
+Print Assumptions c10_fixed_spec_unique.
+
+Theorem c10_ali_spec_unique : forall rows len wt vo lobe o1 o2,
+  ali_spec rows len wt vo lobe o1 -> ali_spec rows len wt vo lobe o2 -> o1 = o2.
+Proof. exact ali_spec_unique. Qed.
+Print Assumptions c10_ali_spec_unique.
+
+Theorem c10_ref_spec_unique : forall rows len other wt vo lobe o1 o2,
+  ref_spec rows len other wt vo lobe o1 -> ref_spec rows len other wt vo lobe o2 -> o1 = o2.
+Proof. exact ref_spec_unique. Qed.
+Print Assumptions c10_ref_spec_unique.
+
+(* lengths 0: an input without frames yields no windows, and the policy prescribes none for an empty sequence *)
+Theorem c10_empty_input_no_windows : forall v inp il ol wt vo lobe, slice_spect_data v 0 inp il ol wt vo lobe = Some [].
+Proof. exact empty_input_no_windows. Qed.
+Print Assumptions c10_empty_input_no_windows.
+
+Theorem c10_fixed_len0_no_windows : forall wt vo lobe out, 0 <= lobe -> fixed_seq_spec wt vo lobe 0 out -> out = [].
+Proof. exact fixed_len0_no_windows. Qed.
+Print Assumptions c10_fixed_len0_no_windows.
+
+(* ================================================================================================== *)
+(* "with valid-only set every returned window lies inside its sequence"                                *)
+(* ================================================================================================== *)
+Theorem c10_valid_only_inside : forall v T inp in_lens other_lens wt lobe out w n,
+  d1 v = false -> d2 v = false -> d3 v = false -> d4 v = false -> (1 <= T)%nat -> 0 <= lobe ->
+  match inp with
+  | InFixed N => lens_ok N (Z.of_nat T) in_lens
+  | InAli rows => Forall (fun r => length r = T) rows /\ lens_ok (length rows) (Z.of_nat T) in_lens
+  | InRef rows => ref_lens_ok T rows in_lens other_lens
+  end ->
+  slice_spect_data v T inp in_lens other_lens wt true lobe = Some out -> In (w, Z.of_nat n) out ->
+  inside (match inp with
+          | InRef rows => ref_other T rows in_lens other_lens n
+          | _ => len_of (Z.of_nat T) in_lens n
+          end) w.
+Proof. exact sd_valid_only_inside. Qed.
+Print Assumptions c10_valid_only_inside.
+
+(* ================================================================================================== *)
+(* Token chunking keeps, in order, exactly the tokens whose known segments are contained in the slice *)
+(*  (or merely overlap it when partial matches are allowed), and unless asked to retain them           *)
+(*  re-expresses their boundaries as offsets from the slice start                                     *)
+(* ================================================================================================== *)
+(* holds when boundaries are retained (any variant) and, for relative boundaries, with the corrected arithmetic *)
+Theorem c10_tokens_kept_iff_contained_or_overlap : forall v refs slices ref_lens partial retain R n,
+  tokens_shape_ok refs slices R -> (n < length refs)%nat -> (retain = true \/ k1 v = false) ->
+  let out := chunk_tokens v refs slices ref_lens partial retain in
+  tokens_row_spec partial retain (rowL ref_lens n) (nth n slices (0, 0)) (nth n refs []) (nth n (fst out) [])
+  /\ nth n (snd out) 0 = zlen (nth n (fst out) [])
+  /\ length (fst out) = length refs /\ length (snd out) = length refs.
+Proof. exact tokens_kept_spec. Qed.
+Print Assumptions c10_tokens_kept_iff_contained_or_overlap.
+
+(* "in order", and the SET of kept tokens is right even with the arithmetic as coded *)
+Theorem c10_tokens_order_preserved : forall v refs slices ref_lens partial retain R n,
+  tokens_shape_ok refs slices R -> (n < length refs)%nat ->
+  let out := chunk_tokens v refs slices ref_lens partial retain in
+  subseq (map tk_tok (nth n (fst out) [])) (map tk_tok (nth n refs []))
+  /\ map tk_tok (nth n (fst out) []) = map tk_tok (nth n (fst (chunk_tokens repaired refs slices ref_lens partial retain)) []).
+Proof. exact tokens_order_preserved. Qed.
+Print Assumptions c10_tokens_order_preserved.
+
+Theorem c10_retain_keeps_boundaries : forall v refs slices ref_lens partial R n,
+  tokens_shape_ok refs slices R -> (n < length refs)%nat ->
+  subseq (nth n (fst (chunk_tokens v refs slices ref_lens partial true)) []) (nth n refs []).
+Proof. exact retain_keeps_boundaries. Qed.
+Print Assumptions c10_retain_keeps_boundaries.
+
+(* "overlap" for a non-empty token and slice means sharing a frame; containment implies it *)
+Theorem c10_overlap_iff_common_frame : forall sl x, tk_start x < tk_end x -> fst sl < snd sl ->
+  (tok_in true sl x <-> exists t, fst sl <= t < snd sl /\ tk_start x <= t < tk_end x).
+Proof. exact overlap_iff_common_frame. Qed.
+Print Assumptions c10_overlap_iff_common_frame.
+
+(* KNOWN FINDING K1: as coded the relative boundaries are wrong ... *)
+Theorem c10_relative_boundaries_refuted :
+  exists refs slices,
+    tokens_shape_ok refs slices 1
+    /\ fst (chunk_tokens as_coded refs slices None false false) = [[(8, 4, 7)]]
+    /\ ~ tokens_row_spec false false None (nth 0 slices (0, 0)) (nth 0 refs []) [(8, 4, 7)]
+    /\ tokens_row_spec false false None (nth 0 slices (0, 0)) (nth 0 refs []) [(8, 0, 3)].
+Proof. exact relative_boundaries_refuted. Qed.
+Print Assumptions c10_relative_boundaries_refuted.
+
+(* ... in exactly one way, for all inputs: every kept boundary is the spec's plus twice the slice start *)
+Theorem c10_relative_boundaries_characterised : forall v refs slices ref_lens partial R n,
+  tokens_shape_ok refs slices R -> (n < length refs)%nat -> k1 v = true ->
+  nth n (fst (chunk_tokens v refs slices ref_lens partial false)) []
+  = map (fun x => (tk_tok x, tk_start x + 2 * fst (nth n slices (0, 0)), tk_end x + 2 * fst (nth n slices (0, 0))))
+        (nth n (fst (chunk_tokens repaired refs slices ref_lens partial false)) [])
+  /\ snd (chunk_tokens v refs slices ref_lens partial false) = snd (chunk_tokens repaired refs slices ref_lens partial false).
+Proof. exact relative_boundaries_characterised. Qed.
+Print Assumptions c10_relative_boundaries_characterised.
+
+(* ================================================================================================== *)
+(* Consequently chunking a well-formed data directory by any policy yields a well-formed data         *)
+(*  directory in which every chunk equals the source restricted to its window  (corrected arithmetic) *)
+(* ================================================================================================== *)
+Theorem c10_chunk_is_restriction : forall v p wt lobe partial retain u chunks ch,
+  d1 v = false -> d2 v = false -> d3 v = false -> d4 v = false -> (retain = true \/ k1 v = false) ->
+  utt_wf (u_feat u) (u_ali u) (utt_ref_list u) ->
+  chunk_utt v p wt None lobe partial retain u = Some chunks -> In ch chunks ->
+  inside (zlen (u_feat u)) (c_win ch)
+  /\ c_feat ch = restrict (u_feat u) (c_win ch)
+  /\ c_ali ch = match u_ali u with Some a => Some (restrict a (c_win ch)) | None => None end
+  /\ match u_ref u with
+     | Some (RefSeg r) => exists out, c_ref ch = Some out /\ tokens_row_spec partial retain None (c_win ch) r out
+     | Some (RefTok _) => c_ref ch = Some []
+     | None => c_ref ch = None
+     end.
+Proof. exact chunk_is_restriction. Qed.
+Print Assumptions c10_chunk_is_restriction.
+
+(* any policy, window type, lobe, with or without --pad-mode; default token options *)
+Theorem c10_chunked_dir_wellformed : forall v p wt pad lobe u chunks ch,
+  k1 v = false ->
+  chunk_utt v p wt pad lobe false false u = Some chunks -> In ch chunks ->
+  utt_wf (c_feat ch) (c_ali ch) (c_ref ch).
+Proof. exact chunked_dir_wellformed. Qed.
+Print Assumptions c10_chunked_dir_wellformed.
+
+(* K1 again: with the arithmetic as coded the consequence fails *)
+Theorem c10_dir_k1_refuted :
+  exists u chunks ch,
+    utt_wf (u_feat u) (u_ali u) (utt_ref_list u)
+    /\ chunk_utt k1_only Fixed Causal None 2 false false u = Some chunks /\ In ch chunks
+    /\ ~ utt_wf (c_feat ch) (c_ali ch) (c_ref ch).
+Proof. exact dir_k1_refuted. Qed.
+Print Assumptions c10_dir_k1_refuted.
+
+(* ================================================================================================== *)
+(* The other as-coded definitions (repaired in /repo; kept because the check tests for a relapse):     *)
+(* each makes the statement above false                                                                *)
+(* ================================================================================================== *)
+Theorem c10_ali_d1_refuted :
+  slice_spect_data as_coded 4 (InAli [[1; 1; 2; 2]]) None None Symmetric true 0 = None
+  /\ ali_spec [[1; 1; 2; 2]] (len_of 4 None) Symmetric true 0 [((0, 2), 0); ((2, 4), 0)].
+Proof. exact ali_d1_refuted. Qed.
+Print Assumptions c10_ali_d1_refuted.
+
+Theorem c10_ref_d2_refuted :
+  slice_spect_data as_coded 2 (InRef [[(7, 0, 2); (8, 2, 5)]]) None None Symmetric true 0 = None
+  /\ ref_spec [[(7, 0, 2); (8, 2, 5)]] (ref_len 2 None) (ref_other 2 [[(7, 0, 2); (8, 2, 5)]] None None)
+              Symmetric true 0 [((0, 2), 0); ((2, 5), 0)].
+Proof. exact ref_d2_refuted. Qed.
+Print Assumptions c10_ref_d2_refuted.
+
+Theorem c10_ref_d2_always_raises : forall v T rows in_lens wt vo lobe,
+  d2 v = true -> slice_ref v T rows in_lens None wt vo lobe = None.
+Proof. exact ref_d2_always_raises. Qed.
+Print Assumptions c10_ref_d2_always_raises.
+
+Theorem c10_fixed_d3_refuted :
+  exists out, slice_fixed as_coded 1 1 None Symmetric false 1 = Some out
+              /\ ~ fixed_spec 1 (len_of 1 None) Symmetric false 1 out.
+Proof. exact fixed_d3_refuted. Qed.
+Print Assumptions c10_fixed_d3_refuted.
+
+(* D3 shows only when in_lens is omitted: with in_lens given every variant agrees with the repaired one *)
+Theorem c10_fixed_given_lens_agree : forall v N T ls wt vo lobe,
+  0 <= lobe -> 0 <= T -> lens_ok N T (Some ls) ->
+  slice_fixed v N T (Some ls) wt vo lobe = slice_fixed repaired N T (Some ls) wt vo lobe.
+Proof. exact fixed_given_lens_agree. Qed.
+Print Assumptions c10_fixed_given_lens_agree.
+
+Theorem c10_ali_d4_refuted :
+  slice_spect_data (mkV false false false false true false) 4 (InAli [[1; 2; 3; 0]]) (Some [3]) None Symmetric true 2 = None
+  /\ ali_spec [[1; 2; 3; 0]] (len_of 4 (Some [3])) Symmetric true 2 [].
+Proof. exact ali_d4_refuted. Qed.
+Print Assumptions c10_ali_d4_refuted.
+
+(* ================================================================================================== *)
+(* non-vacuity: the docstring's worked examples meet the hypotheses and give the documented windows    *)
+(* ================================================================================================== *)
+Example c10_ali_nonvacuous :
+  let row := [1; 1; 1; 1; 2; 2; 2; 1; 5; 5] in
+  Forall (fun r => length r = 10%nat) [row] /\ lens_ok 1 10 None
+  /\ slice_spect_data k1_only 10 (InAli [row]) None None Symmetric true 1 = Some [((0, 8), 0); ((4, 10), 0)]
+  /\ slice_spect_data k1_only 10 (InAli [row]) None None Causal false 1
+     = Some [((0, 4), 0); ((0, 7), 0); ((4, 8), 0); ((7, 10), 0)]
+  /\ slice_spect_data k1_only 11 (InAli [row ++ [0]; row ++ [0]]) (Some [10; 4]) None Future true 1
+     = Some [((0, 7), 0); ((4, 8), 0); ((7, 10), 0)].
+Proof. cbv zeta. split; [repeat constructor|]. split; [exact I|]. repeat split; vm_compute; reflexivity. Qed.
+
+Example c10_fixed_nonvacuous :
+  lens_ok 2 11 (Some [8; 5])
+  /\ slice_spect_data k1_only 11 (InFixed 2) (Some [8; 5]) None Symmetric false 2
+     = Some [((-1, 4), 0); ((2, 7), 0); ((5, 10), 0); ((-1, 4), 1); ((2, 7), 1)]
+  /\ slice_spect_data k1_only 8 (InFixed 1) None None Symmetric true 2 = Some [((0, 5), 0); ((3, 8), 0)].
+Proof.
+  split; [split; [reflexivity|repeat (apply Forall_cons; [lia|]); apply Forall_nil]|].
+  split; vm_compute; reflexivity.
+Qed.
+
+Example c10_ref_nonvacuous :
+  let row := [(1, 0, 0); (2, 2, 3); (3, -1, 1); (4, 0, -1); (5, 3, 5); (6, 4, 4)] in
+  ref_lens_ok 6 [row] (Some [5]) (Some [6]) /\ ref_lens_ok 6 [row] (Some [5]) None
+  /\ slice_spect_data k1_only 6 (InRef [row]) (Some [5]) (Some [6]) Symmetric false 2
+     = Some [((-2, 2), 0); ((0, 5), 0); ((1, 7), 0)]
+  /\ slice_spect_data k1_only 6 (InRef [row]) (Some [5]) None Causal true 2 = Some [((0, 3), 0); ((1, 5), 0)].
+Proof.
+  cbv zeta. split; [reflexivity|].
+  split; [intros n Hn; assert (n = 0%nat) by (cbn in Hn; lia); subst n; vm_compute; reflexivity|].
+  split; vm_compute; reflexivity.
+Qed.
+
+Example c10_tokens_nonvacuous :
+  tokens_shape_ok [[(8, 2, 5); (9, 5, 9); (1, 9, 12)]; [(3, 0, 2); (4, -1, -1); (5, 1, 1)]] [(2, 9); (0, 2)] 3
+  /\ chunk_tokens repaired [[(8, 2, 5); (9, 5, 9); (1, 9, 12)]; [(3, 0, 2); (4, -1, -1); (5, 1, 1)]] [(2, 9); (0, 2)]
+                  (Some [3; 2]) false false
+     = ([[(8, 0, 3); (9, 3, 7)]; [(3, 0, 2)]], [2; 1])
+  /\ chunk_tokens as_coded [[(8, 2, 5); (9, 5, 9); (1, 9, 12)]; [(3, 0, 2); (4, -1, -1); (5, 1, 1)]] [(2, 9); (0, 2)]
+                  (Some [3; 2]) true false
+     = ([[(8, 4, 7); (9, 7, 11)]; [(3, 0, 2)]], [2; 1]).
+Proof. split; [split; [repeat constructor|reflexivity]|]. split; vm_compute; reflexivity. Qed.
